@@ -9,8 +9,10 @@ import textwrap
 from .common import LEAN, SRC, add_failure, bump, new_outcome
 
 PROP = "C06"
-PROPS_FILES = ["CogentModel/Props/C06.lean", "CogentModel/Props/C06Clustal.lean", "CogentModel/Props/C06Gen.lean"]
-LEAN_TARGETS = ["CogentModel.Props.C06", "CogentModel.Props.C06Clustal", "CogentModel.Props.C06Gen"]
+PROPS_FILES = ["CogentModel/Props/C06.lean", "CogentModel/Props/C06Clustal.lean", "CogentModel/Props/C06Gen.lean",
+               "CogentModel/Props/C06Decor.lean", "CogentModel/Props/C06GenLoop.lean"]
+LEAN_TARGETS = ["CogentModel.Props.C06", "CogentModel.Props.C06Clustal", "CogentModel.Props.C06Gen", "CogentModel.Props.C06Decor",
+                "CogentModel.Props.C06GenLoop"]
 DRIVER = "drv_c06"
 TRUSTED = [
     "hand-written models lean/CogentModel/Model/Splitlines.lean (str.splitlines, util/io.iter_splitlines loop) and "
@@ -35,13 +37,14 @@ ASSUMPTIONS = [
 
 GEN_PATH = LEAN / "CogentModel" / "Gen" / "C06Dispatch.lean"
 GEN_STR_PATH = LEAN / "CogentModel" / "Gen" / "C06Str.lean"
+GEN_LOOP_PATH = LEAN / "CogentModel" / "Gen" / "C06Loop.lean"
 _gen_state = {}
 
 
 def generate(ctx):
     """translator step (every run): the compression dispatch tables of util/io.py -> Gen/C06Dispatch.lean; the pure string
     functions of parse/clustal.py and parse/phylip.py -> Gen/C06Str.lean (proved equal to the hand models in Props/C06Gen.lean)"""
-    from translator import c06_dispatch2lean, c06_str2lean
+    from translator import c06_dispatch2lean, c06_loop2lean, c06_str2lean
 
     table, suffixes, problems, changed = c06_dispatch2lean.generate(SRC, GEN_PATH)
     _gen_state.update(table=table, suffixes=suffixes)
@@ -51,7 +54,10 @@ def generate(ctx):
     p2, changed2 = c06_str2lean.generate(SRC, GEN_STR_PATH)
     if changed2:
         ctx.notes.append("Gen/C06Str.lean was rewritten (is_clustal_seq_line / delete_trailing_number / is_blank / _split_line changed or first run)")
-    return problems + [f"c06_str2lean: {x}" for x in p2]
+    p3, changed3 = c06_loop2lean.generate(SRC, GEN_LOOP_PATH)
+    if changed3:
+        ctx.notes.append("Gen/C06Loop.lean was rewritten (_faster_parser / _strict_parser / PamlParser loop changed or first run)")
+    return problems + [f"c06_str2lean: {x}" for x in p2] + [f"c06_loop2lean: {x}" for x in p3]
 
 
 PRINTABLE = [chr(i) for i in range(32, 127)]
